@@ -33,6 +33,12 @@ def convert_flux(nu, flux, target_unit, distance=None):
 
     curr_unit = flux.unit
 
+    # SED files usually store single-precision values, and the intermediate
+    # quantities below (e.g. faint fluxes in ergs/cm^2/s/Hz) can fall below the
+    # single-precision range even when the end result does not, so we work in
+    # double precision.
+    flux = flux.astype(np.float64)
+
     if curr_unit.is_equivalent(u.erg / u.s):
         flux = flux / distance ** 2
     elif curr_unit.is_equivalent(u.Jy):
